@@ -305,6 +305,11 @@ class Monitor:
                     break
         if info["parent"] is None and atom.bonds:
             info["parent"] = atom.bonds[0].name
+        # the parent as an OBJECT (names are swapped later by Flip / Carboxylic.rename)
+        pobj = None
+        if info["parent"]:
+            pobj = (res.get_atom(info["parent"] + "FLIP") if name.endswith("FLIP") and res.has_atom(info["parent"] + "FLIP") else None) or resolve(res, info["parent"])
+        info["parent_obj"] = pobj if (pobj is not None and getattr(pobj, "residue", None) is res) else None
         if info["site"] == "Flip.__init__" and ref is not None and base in ref.map:
             src = res.get_atom(base)
             if src is not None:
@@ -482,6 +487,21 @@ def check_added_atoms(ctx, bio, label, case, stats=None):
                     phi = math.degrees(math.acos(max(-1.0, min(1.0, c0 * c0 + (1 - c0 * c0) * -0.5))))
                     fail("bond-angle", "tetrahedral-120-image" if abs(a1 - phi) < 0.5 else "off-template", f"angle {nb}-{b}-{a.name} is {a1:.1f}, template {a0:.1f} degrees (tolerance {t:.1f})", {"partner": b, "neighbour": nb, "observed": a1, "template": a0, "tolerance": t})
                     break
+            # (3a) its OWN bond list, under the FINAL names: every listed atom of this residue must be a template
+            #      bond partner of this atom (an H whose list names the other carboxyl oxygen is attached to the wrong atom)
+            own = [bo for bo in a.bonds if res.map.get(bo.name) is bo]
+            wrong = [bo.name for bo in own if bo.name not in ta.bonds and not bo.name.startswith("LP")]
+            if wrong:
+                fail("parent", "bond-list-names-non-template-partner", f"its bond list names {wrong}, its template bond partners are {list(ta.bonds)} (distance {math.dist(a.coords, own[0].coords):.3f} A to {own[0].name})", {"listed": wrong})
+            elif kind == "H" and not own and not any(b in PSEUDO for b in ta.bonds):
+                fail("parent", "bond-list-empty", "is in no bond list of its residue")
+            # (3b) the atom OBJECT it was created on: must still be there, bonded, and be the template parent under its final name
+            pobj = info.get("parent_obj")
+            if pobj is not None and site.split(">")[0] not in ("Flip.__init__",):
+                if res.map.get(pobj.name) is not pobj:
+                    fail("parent", "parent-removed", f"the atom it was created on (now named {pobj.name}) is no longer in the residue")
+                elif pobj.name not in ta.bonds:
+                    fail("parent", "parent-renamed-away", f"the atom it was created on is now named {pobj.name}, which is not a template bond partner of {a.name} ({list(ta.bonds)})")
             # (3) still attached to the parent it was created on
             parent = info.get("parent")
             if parent and parent.endswith("FLIP"):
@@ -639,6 +659,7 @@ def build_cases(ctx):
     for seq in (["ALA", "LEU", "LYS", "GLU", "MET", "GLN", "ARG", "PHE"], ["SER", "ILE", "THR", "VAL", "ASN", "TRP", "TYR", "HIS"]):
         cases.append((f"helix {'-'.join(seq)}", B.to_pdb(B.build_peptide(seq, helix=True, rotation=B.random_rotation(nrng))), OPTION_SETS[len(cases) % 3], "helix"))
     cases += break_cases(ctx, rng, nrng)
+    cases += threshold_cases(ctx, rng, nrng)
     cases += hydrogen_pattern_cases(ctx, rng, nrng)
     cases += truncation_cases(ctx, rng, nrng)
     return cases
@@ -780,6 +801,86 @@ def break_cases(ctx, rng, nrng):
             cases.append((f"{'RNA' if rna else 'DNA'} {''.join(sq)} nucleotide 3 missing{' (input hydrogens)' if hyd else ''}", B.to_pdb(B.reserial(B.delete_atoms(st, lambda a: a.resseq == 3))), ["--ff=AMBER"], "break-nucleic"))
         st = B.build_strand(sq, rna=rna, rotation=B.random_rotation(nrng))
         cases.append((f"{'RNA' if rna else 'DNA'} numbering gap, contiguous strand", B.to_pdb(B.renumber(st, lambda c, r, i: r if r < 3 else r + 7)), ["--ff=CHARMM"], "break-nucleic"))
+    return cases
+
+
+def set_bond_length(atoms, resseq, chain, pivot, moved, length):
+    """Move atom `moved` of one residue along pivot -> moved so that the bond is `length` A long."""
+    pv = next(a for a in atoms if a.resseq == resseq and a.chain == chain and a.name == pivot).xyz
+    out = []
+    for a in atoms:
+        if a.resseq == resseq and a.chain == chain and a.name == moved:
+            u = a.xyz - pv
+            a = a.at(pv + u / np.linalg.norm(u) * length)
+        out.append(a)
+    return out
+
+
+def threshold_cases(ctx, rng, nrng):
+    """Inputs on BOTH sides of the geometric thresholds that select a code path in hydrogens/structures.py,
+    optimize.py, aa.py, biomolecule.py: carboxyl C-O length difference 0.05 A (Carboxylic.__init__ longflag), hydrogen-bond
+    distance 3.3 A / angle cutoffs (partners at 2.6 .. 3.5 A), PEPTIDE_DIST 1.7 A, the cyclic test 1.35 A, the S-S test 2.5 A,
+    bump distances (packed pairs, separate generator)."""
+    cases = []
+    n = 0
+    carb = {"ASH": ("CG", "OD1", "OD2"), "GLH": ("CD", "OE1", "OE2"), "ASP": ("CG", "OD1", "OD2"), "GLU": ("CD", "OE1", "OE2")}
+    ffsets = [["--ff=AMBER"], ["--ff=PARSE"], ["--ff=CHARMM"], ["--ff=TYL06"], ["--ff=SWANSON"], ["--ff=AMBER", "--nodebump"]]
+    for rn in ("ASH", "GLH"):
+        piv, o1, o2 = carb[rn]
+        for l1, l2 in ((1.32, 1.21), (1.21, 1.32), (1.27, 1.23), (1.23, 1.29)):
+            for wat in (False, True):
+                seq = [rng.choice(["ALA", "GLY", "SER"]), rn, rng.choice(["ALA", "VAL", "THR"]), "ALA"]
+                pep = B.build_peptide(seq, rotation=B.random_rotation(nrng))
+                pep = set_bond_length(set_bond_length(pep, 2, "A", piv, o1, l1), 2, "A", piv, o2, l2)
+                extra = []
+                if wat:  # a water the proton can hydrogen-bond to, next to the LONGER oxygen (Carboxylic.fix path)
+                    tgt = next(a for a in pep if a.resseq == 2 and a.name == (o1 if l1 > l2 else o2))
+                    extra = B.waters(1, around=pep, near=tgt, near_dist=2.7, rng=nrng)
+                cases.append((f"{rn} with C-O lengths {o1} {l1} / {o2} {l2}{' + water at the longer O' if wat else ''}: {'-'.join(seq)}", B.to_pdb(B.reserial(pep + extra)), ffsets[n % len(ffsets)], "threshold-carboxyl"))
+                n += 1
+    # the same through propka at low pH (ASP / GLU become ASH / GLH), real propka
+    for rn in ("ASP", "GLU"):
+        piv, o1, o2 = carb[rn]
+        for l1, l2 in ((1.32, 1.21), (1.21, 1.32)):
+            seq = ["ALA", rn, "SER", rn, "ALA"]
+            pep = B.build_peptide(seq)
+            for r_ in (2, 4):
+                pep = set_bond_length(set_bond_length(pep, r_, "A", piv, o1, l1 if r_ == 2 else l2), r_, "A", piv, o2, l2 if r_ == 2 else l1)
+            cases.append((f"{rn} x2 with C-O lengths {l1}/{l2} and {l2}/{l1}, propka pH 1: {'-'.join(seq)}", B.to_pdb(pep), [["--ff=AMBER"], ["--ff=PARSE"]][n % 2] + ["--titration-state-method=propka", "--with-ph=1.0"], "threshold-carboxyl"))
+            n += 1
+    # neutral C-terminus (HO on O / OXT), both choices of the longer C-O
+    for l1, l2 in ((1.32, 1.21), (1.21, 1.32), (1.25, 1.25)):
+        seq = ["SER", "LEU", rng.choice(["ALA", "LYS", "PHE"])]
+        pep = B.build_peptide(seq)
+        pep = set_bond_length(set_bond_length(pep, 3, "A", "C", "O", l1), 3, "A", "C", "OXT", l2)
+        cases.append((f"neutral C-terminus with C-O {l1} / C-OXT {l2}: {'-'.join(seq)}", B.to_pdb(pep), ["--ff=PARSE", "--neutralc"], "threshold-carboxyl"))
+    # hydrogen-bond partner (a water) on both sides of DIST_CUTOFF 3.3 A from donors / acceptors of optimisable groups
+    targets = [("SER", "OG"), ("THR", "OG1"), ("TYR", "OH"), ("ASH", "OD2"), ("HIS", "ND1"), ("ASN", "OD1"), ("GLN", "NE2"), ("LYS", "NZ"), ("CYS", "SG")]
+    for i, (rn, an) in enumerate(targets):
+        for dist in ((2.6, 3.2, 3.4) if ctx.thorough else ((3.2, 3.4) if (i + ctx.seed) % 2 else (2.6, 3.4))):
+            seq = ["ALA", rn, "GLY"]
+            pep = B.build_peptide(seq, rotation=B.random_rotation(nrng))
+            tgt = next(a for a in pep if a.resseq == 2 and a.name == an)
+            w = B.waters(2, around=pep, near=tgt, near_dist=dist, rng=nrng, min_dist=dist + 0.2)
+            cases.append((f"water {dist} A from {rn} {an}", B.to_pdb(B.reserial(pep + w)), ffsets[(i + n) % 3], "threshold-hbond"))
+    # peptide bond stretched to just below / above PEPTIDE_DIST (1.7 A): complete chain vs break
+    for d in (1.65, 1.75):
+        seq = rng.sample(["ALA", "SER", "LEU", "LYS", "THR", "VAL", "ASP", "PHE"], 6)
+        pep = B.build_peptide(seq, rotation=B.random_rotation(nrng))
+        c3 = next(a for a in pep if a.resseq == 3 and a.name == "C").xyz
+        n4 = next(a for a in pep if a.resseq == 4 and a.name == "N").xyz
+        shift = (n4 - c3) / np.linalg.norm(n4 - c3) * (d - np.linalg.norm(n4 - c3))
+        pep = [a.at(a.xyz + shift) if a.resseq >= 4 else a for a in pep]
+        cases.append((f"peptide bond 3-4 stretched to {d} A: {'-'.join(seq)}", B.to_pdb(pep), ["--ff=AMBER"], "threshold-peptide"))
+    # cyclic peptide (assign_termini cyclic test) and cysteine pairs on both sides of the S-S test
+    try:
+        ring = B.ring_peptide(["GLY", "ALA", "SER", "GLY", "LEU", "GLY", "ASN", "GLY"])
+        cases.append(("cyclic peptide (8 residues)", B.to_pdb(ring), ["--ff=AMBER"], "threshold-cyclic"))
+    except Exception as e:  # noqa - the builder may find no closed ring for a sequence
+        ctx.notes.append(f"ring_peptide: {type(e).__name__}: {e}")
+    for d in (2.04, 2.45, 2.6):
+        a_, b_ = B.disulfide_pair(d, rng=nrng)
+        cases.append((f"two cysteines with SG-SG {d} A", B.to_pdb(a_ + b_), ["--ff=AMBER"] if d != 2.45 else ["--ff=PARSE"], "threshold-ss"))
     return cases
 
 
